@@ -6,14 +6,6 @@ open SignaloModel.Median (POrd valAt MS)
 
 variable {α : Type}
 
-/-- `Median::min()`: the value in slot `head` -/
-def minAcc (s : LS α) : Option α := (s.buffer[s.head]?).bind (·.value)
-/-- `Median::median()`: the value in slot `median` -/
-def medAcc (s : LS α) : Option α := (s.buffer[s.median]?).bind (·.value)
-/-- `Median::max()` as implemented: the value in the slot before `cursor` -/
-def maxAcc (s : LS α) : Option α :=
-  (s.buffer[(s.cursor + s.buffer.length - 1) % s.buffer.length]?).bind (·.value)
-
 theorem minAcc_rep (sl : LS α) (sa : MS α) (hN : 1 ≤ sl.buffer.length) (h : Rep sl sa) :
     minAcc sl = SignaloModel.Median.minAcc sa := by
   have hn := h.circ.node 0 (by have := h.len; omega)
